@@ -9,7 +9,7 @@ Base == [classes |-> {"A"}, methods |-> {"pt", "n"}, consts |-> {<<"int", 1, 1>>
          not |-> FALSE, boolConst |-> FALSE, ifexp |-> FALSE, aggs |-> {}, first |-> FALSE,
          index |-> FALSE, math |-> {}, colls |-> {<<"A", "bk1">>}, select |-> TRUE, where |-> TRUE,
          selectmany |-> FALSE, range |-> FALSE, rows |-> {"seq"}, topmid |-> {},
-         topwhere |-> FALSE, evwhere |-> FALSE, rootnames |-> {}, start |-> "top", boolAsNum |-> FALSE, mindone |-> 0, singles |-> {}, userfns |-> {}, enums |-> FALSE, letcall |-> {}, must |-> {}, mustany |-> {}, nonnull |-> FALSE]
+         topwhere |-> FALSE, evwhere |-> FALSE, rootnames |-> {}, start |-> "top", boolAsNum |-> FALSE, mindone |-> 0, singles |-> {}, userfns |-> {}, enums |-> FALSE, letcall |-> {}, must |-> {}, mustany |-> {}, nonnull |-> FALSE, letseq |-> {}]
 
 \* C01 core: the LINQ operators and their compositions
 ProfCore == [Base EXCEPT !.classes = {"A", "T"}, !.methods = {"pt", "n", "trks", "vals"},
@@ -32,6 +32,12 @@ ProfArith == [Base EXCEPT !.methods = {"pt", "m", "n", "ok"}, !.consts = {<<"int
                 !.aggs = {"Count", "Sum", "Min", "Max", "Aggregate"}, !.ifexp = TRUE,
                 !.select = FALSE, !.where = FALSE, !.rows = {"bool"}, !.first = FALSE, !.colls = {},
                 !.start = "perobj", !.boolAsNum = TRUE, !.methods = {"pt", "m", "n", "ok", "vals"}]
+
+\* C13, third profile: conditionals - as a column (integer arms, mixed arms) and inside the body of an Aggregate, where
+\* the running value passes through one arm
+ProfArithIf == [Base EXCEPT !.methods = {"ok", "vals"}, !.consts = {<<"int", 0, 1>>, <<"double", 1, 2>>}, !.iconsts = {0},
+                  !.binops = {"+"}, !.cmpops = {}, !.ifexp = TRUE, !.aggs = {"Aggregate"}, !.select = FALSE, !.where = FALSE,
+                  !.rows = {"bool"}, !.colls = {}, !.start = "perobj", !.must = {"If"}]
 
 \* C13 core table: every binary / comparison operator over every pair of operand kinds, exhaustively
 ProfArithTable == [ProfArith EXCEPT !.unops = {}, !.not = FALSE, !.aggs = {"Count"}, !.ifexp = FALSE, !.boolConst = FALSE]
@@ -93,6 +99,9 @@ ProfTypes == [Base EXCEPT !.classes = {"A", "T", "R1", "R2"},
 ProfTypesVec == [Base EXCEPT !.classes = {"A", "T", "R1"}, !.methods = {"pt", "q", "tv", "trks", "vals", "valsp", "tref", "code", "color", "isPFMuon"},
                    !.where = FALSE, !.rows = {"seq", "seqseq"}, !.enums = TRUE]
 
+\* C03: the subset of it whose columns are numbers with a declared tree / element type
+ProfTreeTypesVec == [ProfTypesVec EXCEPT !.classes = {"A", "T"}, !.methods = {"pt", "q", "trks", "vals", "code", "color", "isPFMuon"}]
+
 \* C01, second profile: the func_adl idiom of carrying several collections through a tuple or a dict:
 \*   ds.Select(lambda e: (e.A("bk1"), e.B("bk1"))).Select(lambda t: t[0].Select(...) ...)
 ProfTuples == [Base EXCEPT !.classes = {"A", "B"}, !.methods = {"pt"}, !.aggs = {"Count"}, !.where = TRUE,
@@ -114,10 +123,18 @@ ProfMoments == [Base EXCEPT !.methods = {"pt", "momf", "momv", "link"}, !.binops
 ProfRows == [Base EXCEPT !.methods = {"pt"}, !.consts = {}, !.cmpops = {}, !.aggs = {"Count"}, !.first = TRUE, !.where = FALSE,
                !.rows = {"seq", "tuple"}, !.must = {"Tuple"}]
 
+\* C05 / C04: the same over two banks, so that one column can be filled while the First() of another faults
+ProfRows2 == [ProfRows EXCEPT !.colls = {<<"A", "bk1">>, <<"A", "bk2">>}, !.must = {"Tuple", "First"}]
+
 \* C03 / C01: rows built from the element of a stream of numbers, so that ONE value can feed several columns
 \*   ds.SelectMany(e: e.A().Select(j: j.pt())).Select(p: (p, p)),  {'c1': p, 'c2': p + 1},  [p, p]
 ProfRowsN == [Base EXCEPT !.methods = {"pt"}, !.binops = {"+"}, !.cmpops = {}, !.aggs = {}, !.where = TRUE, !.topwhere = TRUE, !.selectmany = TRUE,
                 !.rows = {"tuple", "list", "dict"}, !.topmid = {N}, !.rootnames = {2}, !.mustany = {"Tuple", "List", "Dict"}]
+
+\* C01, fifth profile: a scalar computed ONCE per event (bound by a lambda applied on the spot) written bare as a column of
+\* rows that come from a filtered sequence: ds.SelectMany(e: (lambda n: jets.Where(..).Select(j: (j.pt(), n)))(jets.Count()))
+ProfLetRows == [Base EXCEPT !.methods = {"pt"}, !.consts = {}, !.aggs = {"Count"}, !.where = TRUE, !.selectmany = TRUE,
+                  !.rows = {"tuple"}, !.letseq = {N}, !.must = {"Let", "Tuple", "Where"}]
 
 \* C04: partial operations (First, index, link dereference) under guards
 ProfFault == [Base EXCEPT !.methods = {"pt", "vals", "link"}, !.consts = {<<"int", 0, 1>>},
